@@ -2,7 +2,7 @@
      <superuser 0|1> <umask> <root writable 0|1> <ancestors p=a+b+..,...> <child p=q,...> <links p=d,...> <entries p:cid:mode:owned:isdir,...>
      <query ids, comma sep> <event> ...
    event = R/<cfg>  |  C:<n>:<j>:<junk or ->/<cfg>
-   cfg = class/allow/dryrun/linepps/filemodes(+ sep)/gensup(always|never|asneeded|only)/omit/sersup(p:t + sep)/typesup/types(+ sep)/resmode
+   cfg = class/allow/dryrun/linepps/filepps(+ sep; a mode = SetFileMode, x = external program)/gensup(always|never|asneeded|only)/omit/sersup(p:t + sep)/typesup/types(+ sep)/resmode
    output: one line, events separated by '|':  <ok|exists|err|crash> p=cid:mode:isdir ... (p=- when absent) *)
 open Model
 
@@ -26,7 +26,8 @@ let parse_cfg s =
   match String.split_on_char '/' s with
   | [cl; allow; dry; lpp; modes; gs; omit; ser; typ; types; rm] ->
     { c_class = n_of_int (int_of_string cl); c_amb = N0; c_allow = b allow; c_dryrun = b dry; c_linepps = b lpp;
-      c_filepps = List.map (fun m -> n_of_int m) (ints '+' modes);
+      c_filepps = List.map (fun t -> if t = "x" then PPExternal (fun c -> n_of_int (int_of_n c + 400000000))
+                                     else PPSetFileMode (n_of_int (int_of_string t))) (split '+' modes);
       c_gensup = (match gs with "always" -> GSAlways | "never" -> GSNever | "asneeded" -> GSAsNeeded | "only" -> GSOnly
                               | _ -> failwith "gensup");
       c_omit = b omit; c_sersup = pairs ser; c_typesup = pairs typ;
